@@ -113,7 +113,8 @@ static int eval3(const char *a, const char *b, uint64_t *dig)
         if (k != 2) (void) spiftool_version_compare((spif_charptr_t) prior_a[k], (spif_charptr_t) prior_b[k]);
         else { vh_stack_scribble(SCRIBBLE[k]); }
         errno = ERRNO_BEFORE[k];            /* what an unrelated earlier library call may have left behind */
-        r[k] = norm(spiftool_version_compare((spif_charptr_t) a, (spif_charptr_t) b), a, b);
+        if (VH_GUARD_TRY(3)) { r[k] = norm(spiftool_version_compare((spif_charptr_t) a, (spif_charptr_t) b), a, b); vh_guard_end(); }
+        else vh_fail("version_compare:non-termination", "version_compare(%s, %s) used more than 3 s of CPU time (a linear scan of %zu + %zu bytes)", vh_qs(a), vh_qs(b), strlen(a), strlen(b));
         vh_evals(1);
         *dig = vh_mix(*dig, (uint64_t) (r[k] + 2));
         if (k > 0)
